@@ -8,7 +8,9 @@ DefF == [kind |-> "F", div |-> 2, track |-> TRUE, ruid |-> FALSE, uni |-> {}]
 DefG == [kind |-> "F", div |-> 0, track |-> FALSE, ruid |-> FALSE, uni |-> {}]        \* supply not tracked
 DefN == [kind |-> "NF", div |-> 0, track |-> TRUE, ruid |-> FALSE, uni |-> {1, 2, 3}]
 DefU == [kind |-> "NF", div |-> 0, track |-> TRUE, ruid |-> TRUE, uni |-> {1, 2, 3}]   \* RUID ids, by ordinal of generation
+DefH == [kind |-> "F", div |-> 18, track |-> TRUE, ruid |-> FALSE, uni |-> {}]   \* finest divisibility: no amount with a digit too many exists
 ResF   == [F |-> DefF]
+ResH   == [H |-> DefH]
 ResFN  == [F |-> DefF, N |-> DefN]
 ResN   == [N |-> DefN]
 ResNU  == [N |-> DefN, U |-> DefU]
@@ -69,6 +71,8 @@ LedN0a == [vault |-> [a1 |-> [N |-> C0]], supply |-> [N |-> 0], data |-> [N |-> 
 InitN0a == {LedN0a}
 OpsNFTiny == {"MintNF", "DepositBatch", "BurnNFInAccount", "UpdateNFData"}
 IdsOne == {{1}}
+LedH == [vault |-> [a1 |-> [H |-> FC(4)], a2 |-> [H |-> FC(2)]], supply |-> [H |-> 6], data |-> <<>>, ever |-> <<>>, ctr |-> <<>>]
+InitH == {LedH}
 InitCore == {LedF}
 InitFN == {LedFN}
 InitN == {LedN}
